@@ -93,18 +93,61 @@ class _Batch:
         return [self.func(x) for x in xs]
 
 
-def fresh_process_map(func, items, batch: int = 8):
-    """Ordered map in which every batch of items runs in a newly forked process of its own, one batch at a time.  For Spark cases: the
-    JVM a batch starts belongs to that process and ends with it, so its heap does not grow over a whole run (one session serving ~40
-    Splink cases ran out of heap even after clearing the cache)."""
+def fresh_process_map(func, items, batch: int = 2, per_item_timeout: float = 150.0):
+    """Ordered map in which every batch of items runs in a newly forked process of its own, one batch at a time, under a time limit.
+    For Spark cases: the JVM a batch starts belongs to that process and ends with it, so its heap does not grow over a whole run (one
+    session serving ~40 Splink cases ran out of heap even after clearing the cache), and a case on which Spark's planner exhausts the
+    heap (observed: a 9-record link_only case spinning in garbage collection for over an hour) costs its batch, not the run: the
+    items of a batch that did not answer in time come back as {"__timeout__": True}."""
     items = list(items)
     if not items:
         return []
-    batches = [items[i:i + batch] for i in range(0, len(items), batch)]
+    out = []
     ctx = mp.get_context("fork")
-    with ctx.Pool(1, initializer=_init_worker, maxtasksperchild=1) as pool:
-        out = pool.map(_Batch(func), batches, chunksize=1)
-    return [r for b in out for r in b]
+    for i in range(0, len(items), batch):
+        chunk = items[i:i + batch]
+        pool = ctx.Pool(1, initializer=_init_worker)
+        try:
+            out += pool.apply_async(_Batch(func), (chunk,)).get(timeout=per_item_timeout * len(chunk))
+        except mp.TimeoutError:
+            out += [{"__timeout__": True} for _ in chunk]
+        finally:
+            pool.terminate()
+            pool.join()
+            _kill_jvms_of_dead_workers()
+    return out
+
+
+def _kill_jvms_of_dead_workers():
+    """A terminated worker's Spark JVM normally ends when its stdin closes; one that is spinning in garbage collection may not."""
+    import subprocess
+
+    try:
+        ps = subprocess.run(["ps", "-eo", "pid,ppid,comm"], capture_output=True, text=True, timeout=20).stdout.splitlines()[1:]
+    except Exception:  # noqa: BLE001
+        return
+    for line in ps:
+        parts = line.split()
+        if len(parts) >= 3 and parts[2] == "java" and parts[1] == "1":  # orphaned (re-parented) JVM
+            try:
+                cmd = open(f"/proc/{parts[0]}/cmdline").read()
+                if "pyspark" in cmd:
+                    os.kill(int(parts[0]), 9)
+            except Exception:  # noqa: BLE001
+                pass
+
+
+SPARK_EXHAUSTED = ("OutOfMemoryError", "Java heap space", "GC overhead", "Connection refused", "Py4JNetworkError", "Answer from Java side is empty",
+                   "SparkContext was shut down", "SparkContext has been shutdown", "stopped SparkContext", "getResult")
+
+
+def timed_out(r) -> bool:
+    """A Spark case that did not answer within the time limit, or whose JVM ran out of heap / went away (resource exhaustion of the local
+    Spark in this sandbox, not an answer of the code under test): excluded and counted, never a violation."""
+    if isinstance(r, dict) and r.get("__timeout__") is True:
+        return True
+    return isinstance(r, dict) and r.get("__error__") in ("Py4JJavaError", "Py4JNetworkError", "Py4JError", "ConnectionRefusedError") and any(
+        k in (r.get("text", "") + r.get("tb", "")) for k in SPARK_EXHAUSTED)
 
 
 class safe:
